@@ -7,6 +7,7 @@
   `Golib.Gen.C01` (see Golib/Props/C01Gen.lean).
 -/
 import Golib.Prim.Extra
+import Golib.Prim.Stream
 
 namespace C01
 open Prim
@@ -145,6 +146,37 @@ theorem header_roundtrip (w : Writer) (src ver : Nat) (pcode lic : Int) (r : Byt
       some ([.byte src, .byte ver, .long pcode, .long lic, .intBytes w.buf], r) :=
   Prim.header_roundtrip w src ver pcode lic r hs hv hp hl hb
 
+/-! ### the connection-backed input (NewDataInputNet): fragmentation is invisible -/
+
+/-- the loop of `ReadBytes` on a connection returns exactly the next `n` bytes of the stream and
+    leaves the rest of the stream to arrive, however the stream is cut into reads (a read may
+    return any number of bytes from 0 to what is asked for) -/
+theorem conn_read_bytes (n : Nat) (fs : List Bytes) (h : n ≤ fs.flatten.length) :
+    ∃ r, Prim.Stream.readN n fs = some (fs.flatten.take n, r) ∧ r.flatten = fs.flatten.drop n :=
+  Prim.Stream.readN_some n fs h
+
+/-- … and reports the read error when the stream ends first -/
+theorem conn_read_bytes_eof (n : Nat) (fs : List Bytes) (h : fs.flatten.length < n) :
+    Prim.Stream.readN n fs = none := Prim.Stream.readN_none n fs h
+
+/-- every decoder over a connection is the same decoder over the concatenated bytes -/
+theorem conn_decoder_is_flat_decoder {α : Type} (p : P α) (fs : List Bytes) :
+    (P.runC p fs).map (fun x => (x.1, x.2.flatten)) = P.run p fs.flatten := P.runC_iff p fs
+
+/-- any program of mixed writes, delivered over a connection in fragments of any sizes (a field
+    may be split over any number of fragments), is read back identically and in order, and what
+    is left to arrive is exactly what followed the program's bytes -/
+theorem program_roundtrip_stream (ops : List Op) (fs : List Bytes) (rest : Bytes)
+    (h : ∀ op ∈ ops, WFOp op) (hf : fs.flatten = writeAll ops ++ rest) :
+    ∃ r, P.runC (readAll ops) fs = some (ops, r) ∧ r.flatten = rest :=
+  P.runC_of_run (readAll ops) fs ops rest (by rw [hf]; exact Prim.program_roundtrip ops rest h)
+
+/-- a connection that ends inside the program's bytes makes the read fail (never a short value) -/
+theorem program_stream_truncated_fails (ops : List Op) (fs : List Bytes) (s : Bytes)
+    (h : ∀ op ∈ ops, WFOp op) (hs : s ≠ []) (hq : fs.flatten ++ s = writeAll ops) :
+    P.runC (readAll ops) fs = none :=
+  P.runC_none_of_run (readAll ops) fs (program_prefix_fails ops fs.flatten s h hs hq)
+
 /-! non-vacuity: concrete non-trivial programs meet the hypotheses -/
 example : ∀ op ∈ [Op.decimal (-129), .blob [1, 2, 3], .shortArr [1, -2], .text []],
     WFOp op := by
@@ -160,5 +192,8 @@ example : encDecimal (-129) = [2, 255, 127] := by decide
 example : encDecimal 8388608 = [4, 0, 128, 0, 0] := by decide
 example : (encBlob (List.replicate 254 7)).take 3 = [255, 0, 254] := by decide +kernel
 example : P.run decDecimal [1, 255] = some (-1, []) := by decide
+-- a decimal split over three reads, one of them empty, with a byte of the next message behind it
+example : P.runC decDecimal [[2], [], [255], [127, 9]] = some (-129, [[9]]) := by decide
+example : P.runC decDecimal [[2], [255]] = none := by decide
 
 end C01
